@@ -152,6 +152,9 @@ def run(ctx) -> Report:
     sym_sub.attrs["pullback"] = pb("SymmetricPullback", _element=sym_sub, _symmetry={(0, 0): 0, (0, 1): 1, (1, 0): 1, (1, 1): 2})
     sym_sub.attrs["sub_elements"] = [element((), pb("IdentityPullback"), ()) for _ in range(3)]
     layouts.append(("symmetric tensor x P1 x P2^2", dom2, [sym_sub, element((), pb("IdentityPullback"), ()), element((2,), pb("IdentityPullback"), (2,))]))
+    nested = element((3,), pb("MixedPullback"), (3,), [element((2,), pb("IdentityPullback"), (2,)), element((), pb("IdentityPullback"), ())])
+    nested.attrs["pullback"].attrs["_element"] = nested
+    layouts.append(("[[P2^2, P1], P3]  (a mixed sub-element)", dom2, [nested, element((), pb("IdentityPullback"), ())]))
     dom3 = world(3, 2)
     layouts.append(("RT (contravariant, immersed: 2 ref / 3 phys) x P1 x RT", dom3, [element((2,), pb("ContravariantPiola"), (3,)), element((), pb("IdentityPullback"), ()), element((2,), pb("ContravariantPiola"), (3,))]))
     n_blocks = 0
@@ -217,7 +220,15 @@ def run(ctx) -> Report:
             for arity, fam in ((1, fam1), (2, fam2)):
                 for desc, e in fam:
                     blocks = [(bi, None) for bi in range(len(subs))] if arity == 1 else [(bi, bj) for bi in range(len(subs)) for bj in range(len(subs))]
-                    for bi, bj in blocks:
+                    def renamer(number, block, replace=replace):
+                        if not replace:
+                            return None
+                        shape = subs[block].attrs["phys_shape"]
+                        comps = list(itertools.product(*[range(d) for d in shape]))
+                        nm = f"a{number}_{block}"
+                        return lambda r: sym.sym(nm if not shape else f"{nm}[{','.join(map(str, comps[r]))}]")
+
+                    def harness():
                         H = PassHarness(ctx, CLS, gdim=dom.attrs["geometric_dimension"], tdim=dom.attrs["topological_dimension"])
                         ip = H.ip
                         ip.overrides["np"] = np_model()
@@ -233,18 +244,84 @@ def run(ctx) -> Report:
                         def m_argument(Q, number, part=None):
                             key = (number, id(Q.attrs["element"]))
                             if key not in new_args:
-                                k = subs.index(Q.attrs["element"])
+                                k = subs.index(Q.attrs["element"]) if Q.attrs["element"] in subs else f"sub{len(new_args)}"
                                 t = terminal(f"a{number}_{k}", Q.attrs["value_shape"], "Argument")
-                                t.tags.update(number=lambda: number, part=lambda: part)
+                                t.tags.update(number=lambda: number, part=lambda: part, ufl_function_space=lambda Q=Q: Q, ufl_element=lambda Q=Q: Q.attrs["element"], _number=number)
                                 new_args[key] = t
                             return new_args[key]
 
                         # as_vector builds a ListTensor node (so that FormSplitter.indexed's folding of fixed indices is exercised)
                         ip.overrides["as_vector"] = lambda comps: ip.class_models["ListTensor"](*list(comps))
+
+                        # obj[k] on an expression node builds an Indexed node (so that a result can be traversed again)
+                        def subscript_hook(obj, key, node_):
+                            if not (isinstance(obj, T) and obj.tags.get("ufl_class")):
+                                return NotImplemented
+                            k = tuple(key) if isinstance(key, (tuple, list)) else (key,)
+                            k = tuple(int(x) if isinstance(x, int) and not isinstance(x, bool) else x for x in k)
+                            if len(k) != len(obj.shape) or not all(isinstance(x, int) or hasattr(x, "id") for x in k):
+                                return NotImplemented
+                            if obj.tags.get("ufl_class") == "ListTensor" and len(k) == 1 and isinstance(k[0], int):
+                                return obj.tags["ufl_operands"][k[0]]  # ListTensor.__getitem__ with a fixed index
+                            return uflmodel.m_indexed(obj, MI(k))
+
+                        ip.subscript_hook = subscript_hook
                         ip.class_models["FunctionSpace"] = m_function_space
                         ip.class_models["Argument"] = m_argument
                         side_cls = {"+": ip.class_models["PositiveRestricted"], "-": ip.class_models["NegativeRestricted"]}
                         ip.call_value = lambda t, args, kw: side_cls[args[0]](t)
+                        return H
+
+                    if arity == 2:
+                        # ---- the whole table: extract_blocks(form) interpreted from source with the real splitter ----
+                        H = harness()
+                        ip = H.ip
+
+                        class FormOne:
+                            """a form with one integral (host object): what extract_blocks needs of a form"""
+
+                            __lift_host__ = True
+
+                            def __init__(self, integrand):
+                                self.integrand = integrand
+
+                            def arguments(self):
+                                return (v, u)
+
+                            def empty(self):
+                                return bool(as_T(self.integrand).is_zero_literal)
+
+                        def m_splitter(replace_argument=True, H=H):
+                            H.init(replace_argument)
+                            return H.selfobj
+
+                        ip.class_models["FormSplitter"] = m_splitter
+                        ip.overrides["map_integrand_dags"] = lambda fn_, form, *a_, H=H, FormOne=FormOne, **k_: FormOne(H.map_expr_dag(fn_, form.integrand))
+                        xb = prog.get_function("ufl.algorithms.formsplitter", "extract_blocks")
+                        ttag = f"extract_blocks({desc}) [{lname}; replace_argument={replace}]"
+                        try:
+                            table = ip.call_function(xb, [FormOne(e)], {"replace_argument": replace})
+                        except LiftRaise as ex:
+                            rep.violation("C22-table", xb, ttag, f"{ttag} fails: {ex.what[:160]}")
+                            table = None
+                        if table is not None:
+                            good = len(table) == len(subs) and all(len(r_) == len(subs) for r_ in table)
+                            if not good:
+                                rep.violation("C22-table", xb, ttag, f"{ttag}: the table has {len(table)} rows for {len(subs)} sub-functions")
+                            for bi in range(len(subs)) if good else ():
+                                for bj in range(len(subs)):
+                                    want = projected(projected(e, v, "v", bi, renamer(0, bi)), u, "u", bj, renamer(1, bj))
+                                    entry = table[bi][bj]
+                                    got = T.zero(()) if entry is None else as_T(entry.integrand)
+                                    ok, how, wit = equal_T(got, want, rng=ctx.rng) if got.shape == want.shape else (False, "shape", f"{got.shape}")
+                                    if not ok:
+                                        good = False
+                                        rep.violation("C22-table", xb, f"{ttag} entry ({bi},{bj})", f"{ttag}: entry ({bi},{bj}) of the table {'is None, which is not' if entry is None else 'is not'} the integrand restricted to test sub-function {bi} and trial sub-function {bj} ({how}): {wit}", witness=wit)
+                            if good:
+                                rep.ok("C22-table", xb, f"{ttag}: every entry of the {len(subs)}x{len(subs)} table is the integrand restricted to its test / trial sub-functions; the table sums to the form")
+                    for bi, bj in blocks:
+                        H = harness()
+                        ip = H.ip
                         n_blocks += 1
                         tag = f"block ({bi}{'' if bj is None else ',' + str(bj)}) of {desc} [{lname}; replace_argument={replace}]"
                         try:
@@ -254,14 +331,6 @@ def run(ctx) -> Report:
                         except LiftRaise as ex:
                             rep.violation("C22-block", cls, tag, f"extracting {tag} fails: {ex.what}")
                             continue
-
-                        def renamer(number, block):
-                            if not replace:
-                                return None
-                            shape = subs[block].attrs["phys_shape"]
-                            comps = list(itertools.product(*[range(d) for d in shape]))
-                            nm = f"a{number}_{block}"
-                            return lambda r: sym.sym(nm if not shape else f"{nm}[{','.join(map(str, comps[r]))}]")
 
                         want = projected(e, v, "v", bi, renamer(0, bi))
                         if arity == 2:
@@ -289,6 +358,7 @@ def run(ctx) -> Report:
         else:
             rep.violation("C22-parts", h.func, f"part {part} vs block {want_idx}", f"argument with part {part} for requested block {want_idx}: expected {'the argument' if expect_kept else 'a zero of shape (2,)'}, got {got!r}")
     rep.require_min("C22-block", 150)
+    rep.require_min("C22-table", 20)
     rep.require_min("C22-parts", 4)
     rep.explanation = (
         f"FormSplitter.split lifted on rank-1 and rank-2 integrands over three mixed-element layouts (incl. sub-elements whose reference and physical sizes differ) "
